@@ -67,7 +67,7 @@ II_ATTRS = {"lastyear": "OptInt", "lastmonth": "OptInt", "yearlen": "Int", "next
 TABLES = {"M366MASK", "M365MASK", "MDAY366MASK", "MDAY365MASK", "NMDAY366MASK", "NMDAY365MASK", "WDAYMASK",
           "M366RANGE", "M365RANGE"}
 LEAN_KEYWORDS = {"end", "at", "from", "fun", "do", "then", "have", "show", "by", "open", "local", "instance", "where",
-                 "match", "with", "in", "let", "if", "else", "def", "theorem", "namespace", "section", "variable", "set"}
+                 "match", "with", "in", "let", "if", "else", "def", "theorem", "namespace", "section", "variable", "set", "until"}
 
 
 def lean_ty(t):
@@ -122,6 +122,8 @@ def clean_init(stmts):
             t = st.targets[0]
             if _is_orig(t): continue
             if isinstance(t, ast.Name) and t.id.startswith("orig_"): continue
+        if isinstance(st, ast.If) and "tzinfo is not None" in ast.unparse(st.test) + "".join(ast.unparse(x) for x in st.body):
+            continue        # UNTIL / DTSTART awareness check: `Args` carries ONE zone tag for both (not modelled)
         if isinstance(st, ast.If):
             body, orelse = clean_init(st.body), clean_init(st.orelse)
             if not body and not orelse: continue
@@ -356,6 +358,7 @@ class RTr:
                 return [], "rr.%s" % f, ty
             bv, tv, tyv = self.expr(e.value)
             if tyv == "DT" and e.attr in DT_ATTRS: return bv, "%s.%s" % (tv, DT_ATTRS[e.attr]), "Int"
+            if tyv == "DT" and e.attr == "tzinfo" and "tz" in self.types: return bv, "tz", "Int"     # the zone tag of `Args`
             if tyv == "Pair" and e.attr in ("weekday", "n"): return bv, "%s.%s" % (tv, "1" if e.attr == "weekday" else "2"), "Int"
             raise Untranslatable("attribute .%s" % e.attr)
         if isinstance(e, ast.UnaryOp):
@@ -496,6 +499,10 @@ class RTr:
                 if ty in ("IntList", "IntSet"): return b, "(RRule.sortBy RRule.ltInt %s)" % t, "IntList"
                 if ty in ("PairList", "PairSet"): return b, "(RRule.sortBy RRule.ltPair %s)" % t, "PairList"
                 raise Untranslatable("sorted(<%s>)" % (ty,))
+            if fn == "isinstance" and len(e.args) == 2 and isinstance(e.args[1], ast.Attribute) and ast.unparse(e.args[1]) == "datetime.datetime":
+                b, t, ty = self.expr(e.args[0])
+                if ty in ("DT", "OptDT") and not b: return [], "true", "StaticTrue"      # `Args`: dtstart / until are datetimes
+                raise Untranslatable("isinstance(<%s>, datetime.datetime)" % (ty,))
             if fn == "hasattr" and len(e.args) == 2:
                 b, t, ty = self.expr(e.args[0])
                 if ty in ELEM and not b: return [], "false", "StaticFalse"      # a list has no attribute
@@ -549,6 +556,10 @@ class RTr:
             if f.attr == "weekday" and not e.args:
                 b, t, ty = self.expr(tgt)
                 if ty == "DT": return b, "%s.weekday" % t, "Int"
+            if f.attr == "replace" and not e.args and len(e.keywords) == 1 and e.keywords[0].arg == "microsecond" \
+                    and isinstance(e.keywords[0].value, ast.Constant) and e.keywords[0].value.value == 0:
+                b, t, ty = self.expr(tgt)
+                if ty == "DT": return b, "{ %s with us := 0 }" % t, "DT"
             if f.attr in ("toordinal", "weekday") and not e.args:
                 b, t, ty = self.expr(tgt)
                 if ty != "Date": raise Untranslatable(".%s() on %s" % (f.attr, ty))
@@ -635,6 +646,7 @@ class RTr:
         if ty == "StaticFalse": return b, "False"
         if ty == "StaticTrue": return b, "True"
         if ty in ("DT",): return b, "True"
+        if ty == "OptDT": return b, "(%s.isSome = true)" % t
         if ty == "Int": return b, "(%s ≠ 0)" % t
         if ty in ("OptIntList", "OptPairList"): return b, "(RRule.truthy %s = true)" % t
         if ty in ELEM: return b, "(%s.isEmpty = false)" % t
@@ -813,6 +825,23 @@ class RTr:
         self.nonnull = saved_nn
         return lines or ["pure ()"]
 
+    def prune(self, stmts):
+        """replace nested `if`s whose test is statically decided by the branch taken (so that a `raise` in dead code does not
+        make the enclosing `if` look like it escapes)"""
+        out = []
+        for st in stmts:
+            if isinstance(st, ast.If):
+                try:
+                    saved_tmp = self.tmp
+                    b, c = self.cond(st.test)
+                    self.tmp = saved_tmp
+                except (Untranslatable, KeyError):      # not decidable here (e.g. a slot that is assigned later in the branch)
+                    c = None
+                if c == "False": out += self.prune(st.orelse); continue
+                if c == "True": out += self.prune(st.body); continue
+            out.append(st)
+        return out
+
     def do_if(self, s, rest, k, lo):
         binds, c = self.cond(s.test)
         pre = self.emit_binds(binds)
@@ -827,6 +856,8 @@ class RTr:
                 and isinstance(t0.comparators[0], ast.Constant) and t0.comparators[0].value is None:
             nl = t0.left.id if isinstance(t0.left, ast.Name) else self.slot(t0.left)
             self._narrow = (nl, "orelse" if isinstance(t0.ops[0], ast.Is) else "body")
+        if self.spec.kind == "sec":
+            s = ast.If(test=s.test, body=self.prune(s.body), orelse=self.prune(s.orelse))
         tb, te = self.terminates(s.body), self.terminates(s.orelse)
         sectioned = self.spec.split and self.nest <= 1 and not self.loop
         if tb or te or self.escapes(s.body) or self.escapes(s.orelse) or (not rest and not sectioned):
@@ -1023,7 +1054,40 @@ def section_function(tr, fn):
     return "\n".join(tr.aux) + ("\n" if tr.aux else "") + text, hashlib.sha256(ast.dump(st).encode()).hexdigest()[:16]
 
 
+def whole_init(tr, fn):
+    """all statements of the cleaned `__init__` in sequence; returns the normalised rule"""
+    sp = tr.spec
+    argnames = [a.arg for a in fn.args.args if a.arg != "self"]
+    want = [n for n, _ in sp.params if n not in ("fwd", "tz")]
+    if argnames != want: raise Untranslatable("parameters of rrule.__init__ are %s" % argnames)
+    body = clean_init(fn.body)
+    fields = [("freq", "self__freq"), ("interval", "self__interval"), ("wkst", "self__wkst"), ("dtstart", "self__dtstart"),
+              ("tz", "self__tzinfo"), ("count", "self__count"), ("untilDT", "self__until"), ("bysetpos", "self__bysetpos"),
+              ("bymonth", "self__bymonth"), ("bymonthday", "self__bymonthday"), ("bynmonthday", "self__bynmonthday"),
+              ("byyearday", "self__byyearday"), ("byeaster", "self__byeaster"), ("byweekno", "self__byweekno"),
+              ("byweekday", "self__byweekday"), ("bynweekday", "self__bynweekday"), ("byhour", "self__byhour"),
+              ("byminute", "self__byminute"), ("bysecond", "self__bysecond"), ("timeset", "self__timeset")]
+    def fall_off():
+        for _, v in fields:
+            if v not in tr.types: raise Untranslatable("%s is not assigned by rrule.__init__" % v)
+        return ["pure { %s }" % ", ".join("%s := %s" % (f, v) for f, v in fields)]
+    lines = tr.block(body, fall_off, {v for _, v in fields})
+    params = " ".join("(%s : %s)" % (nm(n), lean_ty(t)) for n, t in sp.params)
+    text = "def %s %s : Py.R RRule.Rule := do\n" % (sp.leanname, params)
+    text += "\n".join(tr.ind(lines)) + "\n"
+    return "\n".join(tr.aux) + ("\n" if tr.aux else "") + text, hashlib.sha256(ast.dump(fn).encode()).hexdigest()[:16]
+
+
 BYP = lambda n: [(n, "OptIntList")]
+INIT_WHOLE = RFn("rrule.__init__[whole]", "init", "sec",
+    [("fwd", "Int"), ("tz", "Int"), ("freq", "Int"), ("dtstart", "DT"), ("interval", "Int"), ("wkst", "OptInt"), ("count", "OptInt"), ("until", "OptDT"),
+     ("bysetpos", "OptIntList"), ("bymonth", "OptIntList"), ("bymonthday", "OptIntList"), ("byyearday", "OptIntList"), ("byeaster", "OptIntList"),
+     ("byweekno", "OptIntList"), ("byweekday", "OptPairList"), ("byhour", "OptIntList"), ("byminute", "OptIntList"), ("bysecond", "OptIntList"),
+     ("cache", "Bool")], "Rule",
+    {"self__bysetpos": "OptIntList", "self__bymonth": "OptIntList", "self__byyearday": "OptIntList", "self__byeaster": "OptIntList",
+     "self__byweekno": "OptIntList", "self__bymonthday": "IntList", "self__bynmonthday": "IntList", "self__byweekday": "OptIntList",
+     "self__bynweekday": "OptPairList", "self__byhour": "OptIntList", "self__byminute": "OptIntList", "self__bysecond": "OptIntList",
+     "self__timeset": "OptTimeList", "self__wkst": "Int", "bymonth": "OptIntList", "bymonthday": "OptIntList", "byweekday": "OptPairList"})
 INIT_SECS = [
     RSec("rrule.__init__[bymonth]", "init_bymonth", "_bymonth", BYP("bymonth"), [("self__bymonth", "OptIntList")]),
     RSec("rrule.__init__[byyearday]", "init_byyearday", "_byyearday", BYP("byyearday"), [("self__byyearday", "OptIntList")]),
@@ -1071,7 +1135,7 @@ RR_SPECS = [
 ]
 
 
-RR_SPECS = RR_SPECS + INIT_SECS
+RR_SPECS = RR_SPECS + INIT_SECS + [INIT_WHOLE]
 
 
 def translate_module(src_root, file, specs):
@@ -1079,6 +1143,12 @@ def translate_module(src_root, file, specs):
     consts = module_consts(tree)
     parts, fps = [], {}
     for sp in specs:
+        if sp is INIT_WHOLE:
+            fn = find_function(tree, "rrule.__init__")
+            text, fp = whole_init(RTr(tree, sp, consts), fn)
+            parts.append("/-- translated from `%s:rrule.__init__`: every statement in sequence (without the `_original_rule` bookkeeping, `warn`, the\n    UNTIL / DTSTART awareness check; `Args` conventions: datetimes, 1-tuples, weekday pairs) -/\n%s" % (file, text))
+            fps[sp.qualname] = fp
+            continue
         if isinstance(sp, RSec):
             fn = find_function(tree, sp.qualname.split("[")[0])
             text, fp = section_function(RTr(tree, sp, consts), fn)
@@ -1093,5 +1163,5 @@ def translate_module(src_root, file, specs):
 
 if __name__ == "__main__":
     import sys
-    text, fps = translate_module(os.path.join(sys.argv[1] if len(sys.argv) > 1 else "/repo", "src", "dateutil"), "rrule.py", INIT_SECS)
+    text, fps = translate_module(os.path.join(sys.argv[1] if len(sys.argv) > 1 else "/repo", "src", "dateutil"), "rrule.py", [INIT_WHOLE])
     print(text)
